@@ -472,7 +472,8 @@ class IntEval:
                 right = self.ev(c, st)
                 t = type(op)
                 ok = {ast.Lt: lambda a, b: a < b, ast.LtE: lambda a, b: a <= b, ast.Gt: lambda a, b: a > b, ast.GtE: lambda a, b: a >= b,
-                      ast.Eq: lambda a, b: a == b, ast.NotEq: lambda a, b: a != b, ast.Is: lambda a, b: a is b, ast.IsNot: lambda a, b: a is not b}.get(t)
+                      ast.Eq: lambda a, b: a == b, ast.NotEq: lambda a, b: a != b, ast.Is: lambda a, b: a is b, ast.IsNot: lambda a, b: a is not b,
+                      ast.In: lambda a, b: a in b, ast.NotIn: lambda a, b: a not in b}.get(t)
                 if ok is None:
                     raise AnalysisError("IntEval: comparison in %s" % k)
                 if not ok(left, right):
@@ -486,15 +487,38 @@ class IntEval:
                 r = self.on_call(e, self, st)
                 if r is not NotImplemented:
                     return r
-            if isinstance(e.func, ast.Name) and e.func.id in ("bool", "int", "abs", "min", "max"):
-                return {"bool": bool, "int": int, "abs": abs, "min": min, "max": max}[e.func.id](*[self.ev(a, st) for a in e.args])
+            if isinstance(e.func, ast.Name) and e.func.id in ("bool", "int", "abs", "min", "max", "any", "all", "len", "str", "tuple", "list", "sorted"):
+                return {"bool": bool, "int": int, "abs": abs, "min": min, "max": max, "any": any, "all": all, "len": len, "str": str, "tuple": tuple, "list": list, "sorted": sorted}[e.func.id](*[self.ev(a, st) for a in e.args])
+            if isinstance(e.func, ast.Attribute) and not e.keywords:
+                recv = self.ev(e.func.value, st)
+                args = [self.ev(a, st) for a in e.args]
+                if isinstance(recv, dict) and e.func.attr in ("values", "keys", "items", "get"):
+                    r_ = getattr(recv, e.func.attr)(*args)
+                    return r_ if e.func.attr == "get" else list(r_)
+                if isinstance(recv, str) and e.func.attr in SAFE_STR_METHODS:
+                    return getattr(recv, e.func.attr)(*args)
             raise AnalysisError("IntEval: call %s" % k)
         if isinstance(e, ast.Tuple):
             return tuple(self.ev(x, st) for x in e.elts)
+        if isinstance(e, ast.List):
+            return [self.ev(x, st) for x in e.elts]
+        if isinstance(e, ast.Set):
+            return frozenset(self.ev(x, st) for x in e.elts)
         if isinstance(e, ast.Subscript) and not isinstance(e.slice, ast.Slice):
             base, idx = self.ev(e.value, st), self.ev(e.slice, st)
             if isinstance(base, (tuple, str, range)) and isinstance(idx, int) and not isinstance(idx, bool):
                 return base[idx]      # IndexError propagates to the caller
+            if isinstance(base, dict):
+                return base[idx]      # KeyError propagates
+        if isinstance(e, (ast.GeneratorExp, ast.ListComp)) and len(e.generators) == 1 and isinstance(e.generators[0].target, ast.Name):
+            out = []
+            gen = e.generators[0]
+            for item in self.ev(gen.iter, st):
+                st2 = dict(st)
+                st2[gen.target.id] = item
+                if all(self.ev(c_, st2) for c_ in gen.ifs):
+                    out.append(self.ev(e.elt, st2))
+            return out
         raise AnalysisError("IntEval: expression %s" % k)
 
     def run(self, stmts, st=None):
@@ -530,6 +554,27 @@ class IntEval:
             if isinstance(s, ast.Return):
                 self._last_state = dict(st)
                 return ("return", self.ev(s.value, st) if s.value is not None else None)
+            if isinstance(s, ast.For) and isinstance(s.target, ast.Name) and not s.orelse:
+                done = None
+                for item in self.ev(s.iter, st):
+                    st[s.target.id] = item
+                    r = self.run(s.body, st)
+                    if r[0] == "break":
+                        break
+                    if r[0] == "continue":
+                        st = r[1]
+                        continue
+                    if r[0] != "fall":
+                        done = r
+                        break
+                    st = r[1]
+                if done is not None:
+                    return done
+                continue
+            if isinstance(s, ast.Break):
+                return ("break", st)
+            if isinstance(s, ast.Continue):
+                return ("continue", st)
             if isinstance(s, ast.Raise):
                 return ("raise", None)
             if isinstance(s, ast.Pass):
@@ -626,3 +671,22 @@ def sym_expand(ctx, fi, expr, env=None, stop=(), depth=0, subst=None):
         return type(e)(**kw)
 
     return norm(ex(expr))
+
+
+def store_polarity(fi, param, target, cfg=None):
+    """Under which None-ness of parameter `param` is `target` (a name or self.attr path) assigned in fi?
+    -> (stored_when_none, stored_when_given) as booleans (a store that is reachable on the path counts)."""
+    from .flow import Flow, NONE, NOTNONE, path_key
+    g = cfg or build_cfg(fi.node)
+    out = []
+    for v in (NONE, NOTNONE):
+        fl = Flow(g, {param: v}).run()
+        hit = False
+        for n in g.nodes:
+            if n.id in fl.visited and n.kind == "stmt" and isinstance(n.ast, ast.Assign):
+                for t in n.ast.targets:
+                    for tt in (t.elts if isinstance(t, (ast.Tuple, ast.List)) else [t]):
+                        if path_key(tt) == target:
+                            hit = True
+        out.append(hit)
+    return tuple(out)
